@@ -58,7 +58,7 @@ func realMain() error {
 	if *flagProf != "" {
 		f, err := os.Create(*flagProf)
 		if err != nil {
-			panic(err)
+			return err
 		}
 		pprof.StartCPUProfile(f)
 		defer pprof.StopCPUProfile()
